@@ -128,6 +128,8 @@ struct DomExec {
     }
     s.m = JVal::null(); s.may_map = false; s.schema_live = 0;
   }
+  template <class A> static auto pool_clear(A& a) -> decltype(a.Clear(), void()) { a.Clear(); }   // only pool allocators have Clear()
+  static void pool_clear(...) {}
   void drop_stash(Slot& s) {   // pool flavour only: the node's destructor touches no memory
     if (s.stash) { delete (typename NodeOf<DPool>::type*)s.stash; s.stash = nullptr; s.stash_m = JVal::null(); }
   }
@@ -247,6 +249,10 @@ struct DomExec {
         if (i1 != e || i2 != e || i3 != e) bad("absent key reported found");
         if (has) bad("HasMember true for absent key");
         if (!sub.IsNull()) bad("operator[] of absent key is not null");
+        if (((size_t)cur_op + k.size()) % 3 == 0) {   // what a miss hands out may be written to; the library discards it: the next miss is null again
+          n[kv].SetInt64(12345);
+          if (!cn[kv].IsNull() || !n[kv].IsNull()) bad("after a write through the reference operator[] returns for an absent key, the next miss is not null");
+        }
       } else {
         if (i1 < 0 || i1 >= e || i2 < 0 || i2 >= e || i3 < 0 || i3 >= e) bad("present key not found");
         if (!has) bad("HasMember false for present key");
@@ -522,6 +528,22 @@ struct DomExec {
       delete st; s.stash = nullptr;
       ob = "us"; return true;
     }
+    // ---------------- the pool is emptied, then the document is parsed anew (the way pool memory is reclaimed between documents)
+    if (k == "PoolClearReparse") {
+      if (s.flavour != FL_POOL || !s.own_alloc) return false;
+      const std::string& text = op.S(1);
+      CBuf tb(text, simmem::PL_AUTO);
+      model::ParseOut ref = model::parse(text);
+      drop_stash(s);            // lived in the pool that is about to be emptied
+      pool_clear(alloc);
+      d.Parse(tb.data, text.size());
+      tb.release();
+      s.schema_live = 0;
+      ob = "PC" + std::to_string((int)d.GetParseError());
+      probe("pool_cleared_then_reparsed");
+      after_parse(d, s, ref, text.size());
+      return true;
+    }
     // ---------------- Parse of a text that lives in the document's own pool (a JSON text carried in a string member)
     if (k == "ParseSelf") {
       if (s.flavour != FL_POOL) return false;
@@ -548,6 +570,7 @@ struct DomExec {
         if (op.fault == FT_NODESTACK_FAIL) { simmem::arm_fail(simmem::LIBC, simmem::FK_REALLOC_NULL, 0); armed = true; }
         if ((cur_op + (int)text.size()) & 1) d.Parse(tb.data, text.size()); else d.Parse(StringView(tb.data, text.size()));   // both overloads
         bool fired = armed && simmem::disarm();
+        if (text.size() && memcmp(tb.data, text.data(), text.size()) != 0) violate("contract", site("input_modified"), "Parse wrote into the caller's text");
         tb.release();
         s.schema_live = 0;
         ob = "P" + std::to_string((int)d.GetParseError()) + "@" + std::to_string(d.GetErrorOffset());
@@ -566,6 +589,7 @@ struct DomExec {
         auto path = pspec_resolve(ps, ref.ok ? ref.v : JVal::null());
         JsonPointer jp = to_json_pointer(path);
         if ((cur_op + (int)text.size()) & 1) d.ParseOnDemand(tb.data, text.size(), jp); else d.ParseOnDemand(StringView(tb.data, text.size()), jp);
+        if (text.size() && memcmp(tb.data, text.data(), text.size()) != 0) violate("contract", site("input_modified"), "ParseOnDemand wrote into the caller's text");
         tb.release();
         s.schema_live = 0;
         ob = "O" + std::to_string((int)d.GetParseError());
@@ -592,6 +616,7 @@ struct DomExec {
       if (op.fault == FT_NODESTACK_FAIL) { simmem::arm_fail(simmem::LIBC, simmem::FK_REALLOC_NULL, 0); armed = true; }
       if ((cur_op + (int)text.size()) & 1) d.ParseSchema(tb.data, text.size()); else d.ParseSchema(StringView(tb.data, text.size()));
       bool fired = armed && simmem::disarm();
+      if (text.size() && memcmp(tb.data, text.data(), text.size()) != 0) violate("contract", site("input_modified"), "ParseSchema wrote into the caller's text");
       tb.release();
       if (fired) {   // handled allocation failure: kErrorNoMem and the existing document untouched
         probe("alloc_fail_fired_in_parseschema");
